@@ -55,13 +55,38 @@ class Session:
         self.engines = {k: make_engine(k, cfg.get("garbage", "empty")) for k in ENG_KINDS}
         self.params0 = dyn.snap_params(self.U)
         self.last_sym = None  # (kind, opts) of the last complete symbolic step on self.net
+        self.prev_numeric_ic = None
 
     # -- helpers --------------------------------------------------------------------------
     def init_for(self, U, op, kind):
         if kind == "numpy":
             vals = dyn.gen_values(op["vals"], self.uspec, self.refs, op.get("neg", False), op.get("edge", False))
-            return dyn.numeric_init(U, vals, op.get("zero_d", False), op.get("alias"), share=U is self.U,
-                                    dtype=op.get("dtype"))
+            ic = dyn.numeric_init(U, vals, op.get("zero_d", False), op.get("alias"), share=U is self.U,
+                                  dtype=op.get("dtype"))
+            if U is self.U and op.get("reuse_arrays") and self.prev_numeric_ic is not None:
+                # the caller's simulation loop: the arrays supplied to the previous step are refreshed
+                # IN PLACE with the new values and handed over again (same objects, new contents)
+                old = self.prev_numeric_ic
+                if old.keys() == ic.keys() and all(
+                    old[e].keys() == ic[e].keys()
+                    and all(isinstance(old[e][k], np.ndarray) and isinstance(ic[e][k], np.ndarray)
+                            and old[e][k].shape == ic[e][k].shape and old[e][k].dtype == ic[e][k].dtype for k in ic[e])
+                    for e in ic
+                ):
+                    for e in ic:
+                        for k in ic[e]:
+                            old[e][k][...] = ic[e][k]
+                    ic = old
+                    self.res.faults["arrays_refreshed_in_place"] += 1
+            if op.get("ic_kind") == "defaultdict":
+                import collections
+
+                dd = collections.defaultdict(dict)
+                dd.update(ic)
+                ic = dd
+            if U is self.U:
+                self.prev_numeric_ic = ic if not op.get("alias") else None
+            return ic
         if op.get("sym") == "caller":
             return dyn.symbolic_init(U, self.refs, kind.upper())
         return None
@@ -354,6 +379,10 @@ def gen_step(rng, cfg, kind=None, allow_fault=True, tier="quick"):
             op["edge"] = True
         if rng.random() < 0.12:
             op["dtype"] = "float32"
+        if rng.random() < 0.2:
+            op["reuse_arrays"] = True
+        if rng.random() < 0.1:
+            op["ic_kind"] = "defaultdict"
         if op["zero_d"] is True and rng.random() < 0.25:
             op["zero_d"] = "pyfloat"
         if "alias" in cfg["enabled"] and rng.random() < 0.3:
@@ -465,6 +494,10 @@ def simplify_op(op: dict):
         o = dict(op); del o["edge"]; yield o
     if op.get("dtype"):
         o = dict(op); del o["dtype"]; yield o
+    if op.get("reuse_arrays"):
+        o = dict(op); del o["reuse_arrays"]; yield o
+    if op.get("ic_kind"):
+        o = dict(op); del o["ic_kind"]; yield o
     if op.get("zero_d") == "pyfloat":
         yield dict(op, zero_d=True)
     if op["op"] == "step":
